@@ -42,7 +42,7 @@ func c01RunReplica(r *simrt.Run, policy int, seed uint64, main bool) (tr *c01Tra
 	// pairing filters and slot assignment have several keys to iterate over), or the generator of
 	// another chain property (complaints and jailing, conflicts, governance, IPRPC, slashes ...)
 	// whose own oracles are ignored here
-	nThemes := len(themes) + 3
+	nThemes := len(themes) + 8 // the rich generic world gets 8 tickets: most map ranges with several keys live in the pairing filters
 	ti := r.Draw("cfg", nThemes)
 	if want := os.Getenv("VERIF_C01_THEME"); want != "" { // development aid: force one theme
 		for i, t := range themes {
